@@ -173,26 +173,31 @@ Qed.
 Definition wfm (m : wmgr) : Prop := 0 <= zeroed m /\ 0 <= any_state m.
 Definition req_nonneg (r : req) : Prop := match r with RGrab n | RFree n => 0 <= n end.
 
+Ltac gtb E := rewrite Z.gtb_ltb in E; first [apply Z.ltb_lt in E | apply Z.ltb_ge in E].
+
 Lemma grab_none_iff : forall n m, grab n m = None <-> tight m = true /\ zeroed m < n.
 Proof.
-  intros n m; unfold grab. destruct (n >? zeroed m) eqn:E, (tight m); split; intros H;
-    try discriminate; try (destruct H; discriminate); try (split; [reflexivity|lia]).
-  destruct H; lia.
+  intros n m; unfold grab. destruct (n >? zeroed m) eqn:E; gtb E; destruct (tight m).
+  - split; intros; [split; [reflexivity|lia]|reflexivity].
+  - split; [discriminate|intros [? _]; discriminate].
+  - split; [discriminate|intros [_ ?]; lia].
+  - split; [discriminate|intros [_ ?]; lia].
 Qed.
 
 Lemma free_none_iff : forall n m, free n m = None <-> any_state m < n.
 Proof.
-  intros n m; unfold free. destruct (n >? any_state m) eqn:E; split; intros H; try discriminate; lia.
+  intros n m; unfold free. destruct (n >? any_state m) eqn:E; gtb E; split; intros H;
+    try discriminate; try reflexivity; lia.
 Qed.
 
 Lemma do_req_wf : forall r m m', wfm m -> req_nonneg r -> do_req r m = Some m' ->
   wfm m' /\ algo m' = algo m /\ tight m' = tight m.
 Proof.
   unfold wfm; intros [n|n] m m' [Hz Ha] Hn H; simpl in H, Hn.
-  - unfold grab in H. destruct (n >? zeroed m) eqn:E.
+  - unfold grab in H. destruct (n >? zeroed m) eqn:E; gtb E.
     + destruct (tight m) eqn:T; inversion H; subst; simpl; repeat split; auto; lia.
     + inversion H; subst; simpl; repeat split; auto; lia.
-  - unfold free in H. destruct (n >? any_state m) eqn:E; inversion H; subst; simpl; repeat split; auto; lia.
+  - unfold free in H. destruct (n >? any_state m) eqn:E; gtb E; inversion H; subst; simpl; repeat split; auto; lia.
 Qed.
 
 Lemma run_hist_wf : forall h m m', wfm m -> Forall req_nonneg h -> run_hist h m = Some m' ->
@@ -260,10 +265,10 @@ Proof.
     assert (any_state m1 = any_state m + delta r /\
             zeroed m1 + any_state m1 = Z.max (zeroed m + any_state m) (any_state m1)) as [EA EW].
     { destruct Hm as [Hz Ha]. destruct r as [n|n]; simpl in E, H2 |- *.
-      - unfold grab in E. destruct (n >? zeroed m) eqn:C.
+      - unfold grab in E. destruct (n >? zeroed m) eqn:C; gtb C.
         + destruct (tight m); inversion E; subst; simpl; lia.
         + inversion E; subst; simpl; lia.
-      - unfold free in E. destruct (n >? any_state m) eqn:C; inversion E; subst; simpl; lia. }
+      - unfold free in E. destruct (n >? any_state m) eqn:C; gtb C; inversion E; subst; simpl; lia. }
     rewrite EA in *. destruct Hm. lia.
 Qed.
 
@@ -383,7 +388,7 @@ Qed.
 Lemma default_ctrl_ok : forall x n z l, 0 <= z -> Forall action_ok l -> Forall action_ok (default_ctrl x n z l).
 Proof.
   unfold default_ctrl; intros x n z l Hz H. apply Forall_app. split.
-  - destruct (z =? 0); constructor; simpl; auto. split; [lia|exact I].
+  - destruct (z =? 0); constructor; [|constructor]. cbn [action_ok rop_ok]. split; [lia|exact I].
   - apply Forall_forall. intros a Ha. apply in_map_iff in Ha. destruct Ha as [b [E Hb]].
     rewrite Forall_forall in H. specialize (H _ Hb). subst. destruct b; simpl in *; auto.
     destruct H. repeat split; auto; lia.
@@ -436,8 +441,8 @@ Proof.
                          | ADealloc n => Some [RFree (wire_req q k n)] end) as [h1|] eqn:T1; [|discriminate].
     destruct (tr_actions (trace D gs f) q k t) as [h2|] eqn:T2; [|discriminate].
     inversion T; subst. apply Forall_app. split; [|apply IHl; auto].
-    destruct a; simpl in H1.
-    + destruct H1. eapply IH; eauto. nia.
+    destruct a; cbn [action_ok] in H1.
+    + destruct H1 as [Hc Hg]. apply (IH g (k * c) h1); [assumption | nia | exact T1].
     + inversion T1; subst. constructor; [|constructor]. simpl. apply wire_req_nonneg; auto.
     + inversion T1; subst. constructor; [|constructor]. simpl. apply wire_req_nonneg; auto.
 Qed.
@@ -494,4 +499,42 @@ Proof.
   - intros [h [m [T R]]].
     destruct (est_items_trace_conv D gs f (wf_items w) (mkSt [] (mkWM z a (wf_algo w) tb)) h m T R) as [s [E _]].
     eauto.
+Qed.
+
+(* ------------------------------------------------------------------ property-level statements (used by Props/C47.v) *)
+Lemma wires_never_negative_lem : forall h m m',
+  0 <= zeroed m -> 0 <= any_state m -> Forall req_nonneg h -> run_hist h m = Some m' ->
+  0 <= zeroed m' /\ 0 <= any_state m'.
+Proof. intros h m m' Hz Ha Hh H. exact (proj1 (run_hist_wf h m m' (conj Hz Ha) Hh H)). Qed.
+Lemma wires_error_exactly_lem : forall h m,
+  run_hist h m = None <->
+  exists h1 r h2 m1, h = h1 ++ r :: h2 /\ run_hist h1 m = Some m1 /\
+    match r with
+    | RGrab n => tight m1 = true /\ zeroed m1 < n
+    | RFree n => any_state m1 < n
+    end.
+Proof.
+  intros h m. rewrite run_hist_none_iff. split; intros [h1 [r [h2 [m1 [E [R C]]]]]]; exists h1, r, h2, m1;
+    (split; [exact E|split; [exact R|]]); destruct r; simpl in *;
+    first [apply grab_none_iff; exact C | apply free_none_iff; exact C].
+Qed.
+Lemma total_ge_algo_lem : forall h m m',
+  0 <= zeroed m -> 0 <= any_state m -> Forall req_nonneg h -> run_hist h m = Some m' ->
+  algo m' = algo m /\ algo m' <= total m'.
+Proof.
+  intros h m m' Hz Ha Hh H. destruct (run_hist_wf h m m' (conj Hz Ha) Hh H) as [[Z1 A1] [AL _]].
+  split; [exact AL|]. unfold total. apply Z.le_sub_le_add_r. rewrite Z.sub_diag. apply Z.add_nonneg_nonneg; assumption.
+Qed.
+Lemma total_accounts_all_allocs_lem : forall h m m',
+  0 <= zeroed m -> 0 <= any_state m -> Forall req_nonneg h -> run_hist h m = Some m' ->
+  zeroed m' + any_state m' = Z.max (zeroed m + any_state m) (peak h (any_state m)) /\
+  any_state m' = any_state m + net h /\
+  forall h1 h2, h = h1 ++ h2 -> any_state m + net h1 <= total m' - algo m'.
+Proof.
+  intros h m m' Hz Ha Hh H. destruct (run_hist_total h m m' (conj Hz Ha) Hh H) as [T N].
+  split; [exact T|]. split; [exact N|]. intros h1 h2 E. subst h.
+  unfold total. pose proof (peak_prefix h1 h2 (any_state m)) as P.
+  apply Z.le_trans with (peak (h1 ++ h2) (any_state m)); [exact P|].
+  replace (zeroed m' + any_state m' + algo m' - algo m') with (zeroed m' + any_state m') by ring.
+  rewrite T. apply Z.le_max_r.
 Qed.
